@@ -40,6 +40,9 @@ def case_stream(tier, seed, salt, n_prog, n_list, bool_only=False):
             origin = "random"
         if bool_only:
             c["list"] = [x for x in c["list"] if not x[0].startswith("_ret")] + [["_ret", [x for x in c["list"] if x[0].startswith("_ret")][0][1]]]
+        if rng.random() < 0.1:
+            c = rename_inputs(c, rng)
+            origin += "+internal_names"
         yield dict(c, kind="list", profile="default" if i % 2 else "fast", evaluate=rng.random() < 0.8, origin=origin)
     if tier == "thorough":
         # small scope, exhaustive: every tree of depth <= 2 over a, b, c (and/or/xor with negated literals), both profiles
@@ -47,7 +50,30 @@ def case_stream(tier, seed, salt, n_prog, n_list, bool_only=False):
             yield {"kind": "list", "inputs": ["a", "b", "c"], "list": [["_ret", e]], "profile": "fast" if k % 2 else "default", "evaluate": True, "origin": "enum"}
 
 
+INTERNAL_LOOKING = ["anc_0", "anc_1", "anc_2", "anc_3", "anc_5", "x0", "x1", "q0", "q1", "q3", "q4"]
+
+
+def rename_inputs(case, rng):
+    """inputs renamed to names the compiler itself uses for ancillas / cse symbols / unnamed qubits"""
+    pool = INTERNAL_LOOKING[:]
+    rng.shuffle(pool)
+    m = {nm: pool[i] for i, nm in enumerate(case["inputs"]) if i < len(pool) and rng.random() < 0.7}
+
+    def ren(e):
+        if isinstance(e, str):
+            return m.get(e, e)
+        if isinstance(e, list):
+            return [e[0]] + [ren(x) for x in e[1:]]
+        return e
+
+    return dict(case, inputs=[m.get(x, x) for x in case["inputs"]], list=[[nm, ren(e)] for nm, e in case["list"]])
+
+
 CORPUS_LISTS = [
+    # inputs named like the compiler's own ancillas
+    {"inputs": ["anc_0", "b", "c"], "list": [["_ret", ["or", ["and", "anc_0", "b"], ["and", "b", ["not", "c"]], ["and", "anc_0", "c"]]]]},
+    {"inputs": ["anc_1", "anc_0", "anc_2"], "list": [["_ret", ["xor", ["and", "anc_1", "anc_0"], ["or", "anc_2", ["and", "anc_0", ["not", "anc_1"]]]]]]},
+    {"inputs": ["a", "anc_2", "q3"], "list": [["t0", ["and", "a", "anc_2"]], ["_ret.0", ["xor", "t0", "q3"]], ["_ret.1", ["or", ["and", "t0", ["not", "q3"]], ["and", "a", "q3"]]]]},
     # the property's cited shape: a negated xor inside a conjunction inside a xor
     {"inputs": ["a", "b", "c", "d", "e"], "list": [["_ret", ["xor", ["and", ["not", ["xor", "a", "b"]], "c"], ["and", "d", "e"]]]]},
     {"inputs": ["a", "b", "c"], "list": [["_ret", ["or", "a", ["and", "b", ["not", "a"]]]]]},
@@ -68,6 +94,9 @@ CORPUS_PROGS = [
     ("def f(a: bool, b: bool) -> bool:\n    return a\n", [["a", "bool"], ["b", "bool"]], "bool"),
     ("def f(a: bool, b: bool) -> Tuple[bool, bool]:\n    return (b, a)\n", [["a", "bool"], ["b", "bool"]], ["bool", "bool"]),
     ("def f(a: bool) -> bool:\n    return True\n", [["a", "bool"]], "bool"),
+    ("def f(anc_0: bool, b: bool, c: bool) -> bool:\n    return (anc_0 and b) or (b and not c) or (anc_0 and c)\n", [["anc_0", "bool"], ["b", "bool"], ["c", "bool"]], "bool"),
+    ("def f(a: bool, anc_1: bool, anc_2: Qint[2]) -> bool:\n    return (a and anc_1 and anc_2 == 1) or (anc_1 and anc_2 > 1) or (a and anc_2 == 3)\n", [["a", "bool"], ["anc_1", "bool"], ["anc_2", "Qint2"]], "bool"),
+    ("def f(a: bool, b: bool, c: bool) -> bool:\n    anc_0 = (a and b) or (b and not c)\n    anc_1 = anc_0 ^ c\n    return (anc_0 and anc_1) or (a and not anc_1)\n", [["a", "bool"], ["b", "bool"], ["c", "bool"]], "bool"),
 ]
 
 
